@@ -573,7 +573,7 @@ class SymbolValue(Value):
             return AddressValue(symbol.int)
 
         if symbol.is_numeric():
-            return NumericValue(symbol.int)
+            return NumericValue(-symbol.int if symbol.is_negative() else symbol.int)
 
     def is_8_bit(self):
         return False
@@ -656,8 +656,8 @@ class ExpressionValue(Value):
             mode = ExplicitAddressingMode.EXTENDED
 
         if self.right.is_numeric() and self.left.is_numeric():
-            left = self.left.int
-            right = self.right.int
+            left = -self.left.int if self.left.is_negative() else self.left.int
+            right = -self.right.int if self.right.is_negative() else self.right.int
 
             if self.operation == "+":
                 self.value = NumericValue("{}".format(left + right), mode=mode)
@@ -682,7 +682,8 @@ class ExpressionValue(Value):
 
     def calculate_address_offset(self, statements):
         address_index = self.left.int if self.left.is_address() else self.right.int
-        additional_value = self.left.int if self.left.is_numeric() else self.right.int
+        additional = self.left if self.left.is_numeric() else self.right
+        additional_value = -additional.int if additional.is_negative() else additional.int
         address = statements[address_index].code_pkg.address.int
         if self.operation == "+":
             return NumericValue(address + additional_value, size_hint=4, mode=ExplicitAddressingMode.EXTENDED)
